@@ -5,10 +5,16 @@
    every lock is consistent (free <-> hold_count 0), every owner of a lock is an
    ACTIVE operation whose context lists the resource, every active operation has
    a context.  [current] = the code as it is at /repo HEAD.  The fault script
-   [sc] (checkpoint outcomes, scripted work function incl. nested controller
+   [sc] (checkpoint verdicts; what each checkpoint callback does first: manual
+   kill of any operation - also of the executing one -, a watchdog pass,
+   shutdown, time passing; scripted work function incl. nested controller
    calls, work raising, validation absent/true/false/raising), the request list
    [reqs] (repeats, unregistered ids, resources held by others), priorities and
-   the watchdog configuration [w] are universally quantified everywhere. *)
+   the watchdog configuration [w] are universally quantified everywhere.
+   The operation id [o] of execute_operation is any id that is not live: a
+   fresh one or the id of an operation that has ended (a retry).
+   [WFbut o s] (Proofs.v): [s] is well-formed once [o] is counted as live - the
+   operation being executed may have been delisted by a callback and hold locks. *)
 From Coq Require Import ZArith List Bool.
 From Verif Require Import C14.Model C14.Proofs.
 Import ListNotations.
@@ -34,11 +40,13 @@ Theorem c14_owner_is_active :
 Proof. exact wf_owner_active. Qed.
 Print Assumptions c14_owner_is_active.
 
-(* However execute_operation ends, when it returns the (fresh) operation owns
-   no registered resource and is not active. *)
+(* However execute_operation ends - also when the operation was killed, reaped
+   by the watchdog or shut down while one of its checkpoint callbacks ran, before
+   or after the acquisition loop -, when it returns the operation owns no
+   registered resource and is not active. *)
 Theorem c14_no_leak :
   forall w s o p reqs sc,
-    WF s -> get_ctx s o = None ->
+    WF s -> ~ In o (active s) ->
     let s' := fst (exec_op current w s o p reqs sc) in
     (forall r, owner s' r <> Some o) /\ ~ In o (active s') /\ WF s'.
 Proof. exact no_leak_proof. Qed.
@@ -46,24 +54,26 @@ Print Assumptions c14_no_leak.
 
 (* Resources the operation never obtained (everything but the requests before
    the first BLOCKED / unknown one) keep owner, owner priority and hold count
-   — for work functions that do not themselves call the controller. *)
+   — for callbacks (work function, checkpoint conditions) that do not themselves
+   call the controller ([no_calls]). *)
 Theorem c14_unobtained_untouched :
   forall w s o p reqs sc r,
-    WF s -> get_ctx s o = None -> probes_only (sc_work sc) ->
-    ~ In r (obtained_by s o p reqs sc) ->
+    WF s -> ~ In o (active s) -> no_calls sc ->
+    ~ In r (obtained_by w s o p reqs sc) ->
     lock_core (fst (exec_op current w s o p reqs sc)) r = lock_core s r.
 Proof. exact unobtained_untouched_proof. Qed.
 Print Assumptions c14_unobtained_untouched.
 
 Theorem c14_unrequested_untouched :
   forall w s o p reqs sc r,
-    WF s -> get_ctx s o = None -> probes_only (sc_work sc) -> ~ In r reqs ->
+    WF s -> ~ In o (active s) -> no_calls sc -> ~ In r reqs ->
     lock_core (fst (exec_op current w s o p reqs sc)) r = lock_core s r.
 Proof. exact unrequested_untouched_proof. Qed.
 Print Assumptions c14_unrequested_untouched.
 
 (* work_fn is invoked at most once, and in the state [sw] in which it is
-   invoked the operation is active and owns every requested resource *)
+   invoked the operation is active and owns every requested resource — whatever
+   the checkpoint callbacks did before (any state, any flags) *)
 Theorem c14_work_once_holding_all :
   forall fl w s o p reqs sc,
     let res := snd (exec_op fl w s o p reqs sc) in
@@ -138,12 +148,24 @@ Theorem c14_watchdog_changes_only_victims_locks :
 Proof. exact watchdog_own_locks_proof. Qed.
 Print Assumptions c14_watchdog_changes_only_victims_locks.
 
-(* execute_operation ends by completing/aborting in a well-formed state sX and
-   changes, from there, only locks the operation owns in sX *)
+(* execute_operation ends by completing/aborting in a state sX that is well-formed
+   up to the operation itself, and changes, from there, only locks the operation
+   owns in sX *)
 Theorem c14_exec_end_changes_only_own_locks :
   forall w s o p reqs sc,
-    WF s -> get_ctx s o = None ->
-    exists sX, WF sX /\ fst (exec_op current w s o p reqs sc) = finish current sX o /\
+    WF s -> ~ In o (active s) ->
+    exists sX, WFbut o sX /\ fst (exec_op current w s o p reqs sc) = finish current sX o /\
       forall r, owner sX r <> Some o -> get_lock (fst (exec_op current w s o p reqs sc)) r = get_lock sX r.
 Proof. exact exec_end_own_locks_proof. Qed.
 Print Assumptions c14_exec_end_changes_only_own_locks.
+
+(* An operation that was ended while its G0 or G1 checkpoint callback ran never
+   runs its work: work_fn is invoked only while the operation is still listed as
+   active, and success is reported only if work_fn was invoked (fix 531c938). *)
+Theorem c14_terminated_never_works :
+  forall fl w s o p reqs sc,
+    let res := snd (exec_op fl w s o p reqs sc) in
+    (forall sw, In (EvWork sw) (r_log res) -> In o (active sw)) /\
+    (r_success res = true -> exists sw, In (EvWork sw) (r_log res)).
+Proof. exact terminated_before_work_proof. Qed.
+Print Assumptions c14_terminated_never_works.
